@@ -689,7 +689,12 @@ def _run_program(case, stats, user_violations, bad_results):
     for step in case["script"]:
         if step[0] == "bad":
             name = step[1]
-            info = ERROR_TABLE[name][0]()
+            saved_share = zoo.SHARE
+            zoo.SHARE = None  # a malformed set-up is its own user script: it never receives a tenant's shared objects
+            try:
+                info = ERROR_TABLE[name][0]()
+            finally:
+                zoo.SHARE = saved_share
             bad_results.append((name, info))
             stats["bad_setup"] = stats.get("bad_setup", 0) + 1
             last_tid = "bad"
